@@ -128,6 +128,8 @@ def build(run):
                             role=lambda v, o: "element=%s" % (kinds[v[0][0]] if v and v[0][0] < len(kinds) else "?"),
                             covers=["mmultiscripts with prescripts reachable", "mfrac with two children reachable"],
                             claim="the fixed-arity block of assure_mathml returns Err exactly for child counts MathML does not allow")], timeout=300)
+    crate_d, lemma_d = semantics_lemma(run)
+    run.kani(crate_d, [lemma_d], timeout=300)
     crate_c, lemma_c = mm_lemma(run)
     run.kani(crate_c, [lemma_c], timeout=900)
 
@@ -197,3 +199,51 @@ def mm_lemma(run):
                        role=lambda v, o: "panic-on-unpaired-script" if "REPLAY-PANIC" in o and "index out of bounds" in o else "illegal-arity-or-lost-script",
                        covers=["a script child was deleted before (even child count) reachable", "prescripts reachable"],
                        claim="no panic for any child count; result has a legal arity (odd without / even with mprescripts at an odd index); visible scripts kept in order")
+
+
+# ======================================================================================================================
+# K-C02-d: the "semantics" arm of clean_mathml always hands an element back (its parent may have a fixed arity)
+SEM_HARNESS = r'''
+#[derive(Clone, Copy, PartialEq)] pub struct El { id: u8 }
+pub struct Doc;
+impl El { fn document(&self) -> Doc { Doc } }
+pub struct CanonicalizeContext { child_survives: bool }
+impl CanonicalizeContext {
+    /// recursive cleaning of the presentation child: it survives or is cleaned away (mphantom, empty token, ...)
+    fn clean_mathml(&self, e: El) -> Option<El> { if self.child_survives { Some(e) } else { None } }
+    fn create_empty_element(_d: &Doc) -> El { El { id: 99 } }
+    fn semantics_arm(&self, mathml: El) -> Option<El> {
+        ARM_BODY
+    }
+}
+fn get_presentation_element(e: El) -> (usize, El) { (0, El { id: e.id + 1 }) }
+fn set_annotation_attrs(_new: El, _old: El) { }
+HARNESS(semantics_arm_always_returns_an_element, 4) {
+    let ctx = CanonicalizeContext { child_survives: sym::bool() };
+    let r = ctx.semantics_arm(El { id: 1 });
+    cover!(!ctx.child_survives, "presentation child cleaned away reachable");
+    assert!(r.is_some(), "the semantics element disappears without a placeholder: a parent with a fixed number of children is left with too few");
+    if ctx.child_survives { assert!(r == Some(El { id: 2 }), "the presentation child is not what is returned"); }
+}
+'''
+
+
+def api_semantics(vals=None, out=None):
+    import re
+    res = mcprobe([("mathml", "<math><mfrac><semantics><mphantom><mi>x</mi></mphantom><annotation encoding='x'>y</annotation></semantics><mn>2</mn></mfrac></math>")])
+    ok = res[0][0] == "OK" and len(re.findall(r"<mfrac[^>]*>\\s*<m\\w+[^>]*>.*?</m\\w+>\\s*<m\\w+", res[0][1], re.S)) == 1
+    return not ok, {"script": "set_mathml(mfrac whose numerator is <semantics> around an <mphantom>): the mfrac must keep two children", "result": res[0]}
+
+
+def semantics_lemma(run):
+    c = slicer.Source.get("src/canonicalize.rs")
+    cm = c.find("fn clean_mathml")
+    arm = c.find_bracketed('"semantics" => {', within=cm)[0]
+    body = arm.text[arm.text.index("{") + 1: arm.text.rindex("}")]
+    run.uses(arm)
+    crate = kani_run.Crate("c02sem", SEM_HARNESS.replace("ARM_BODY", body))
+    run.bound("K-C02-d", "the body of the \"semantics\" arm of clean_mathml with the recursive cleaning of the presentation child succeeding or returning None")
+    run.assume("recursive clean_mathml, get_presentation_element, create_empty_element, set_annotation_attrs replaced by stand-ins")
+    return crate, dict(id="K-C02-d.semantics_arm_returns_element", harness="semantics_arm_always_returns_an_element", api=lambda v, o: api_semantics(),
+                       role=lambda v, o: "semantics-dropped", covers=["presentation child cleaned away reachable"],
+                       claim="the semantics arm returns Some(element) whether or not the presentation child survives cleaning")
